@@ -522,3 +522,18 @@ func zz06Beyond(t *zzT, c bool, label string) {
 		t.Assert(c, label)
 	}
 }
+
+// C03 (rule "a valid aggregate commit"): the height window of a non-empty aggregate commit is part of
+// block validity; the obligation is the C06.a harness, registered under C03 as well.
+//
+//zz:opt loop=80 require=accepted,accepted-empty,rejected
+//zz:stub (*~/pkg/consensus/liskbft.API).GetBFTHeights zz06StubGetBFTHeights
+//zz:stub (*~/pkg/consensus/liskbft.API).NextHeightBFTParameters zz06StubNextHeightBFTParameters
+//zz:stub (*~/pkg/consensus/liskbft.API).GetBFTParameters zz06StubGetBFTParameters
+//zz:stub (*~/pkg/consensus/liskbft.BFTParams).Validators zz06StubValidators
+//zz:stub (*~/pkg/consensus/liskbft.BFTParams).CertificateThreshold zz06StubCertificateThreshold
+//zz:stub (*~/pkg/blockchain.DataAccess).GetBlockHeaderByHeight zz06StubGetBlockHeaderByHeight
+//zz:stub (*github.com/supranational/blst/bindings/go.P1Affine).Uncompress zz06StubP1Uncompress
+//zz:stub (*github.com/supranational/blst/bindings/go.P2Affine).Uncompress zz06StubP2Uncompress
+//zz:stub (*github.com/supranational/blst/bindings/go.P2Affine).FastAggregateVerify zz06StubFastAggregateVerify
+func zzH_C03_aggregate_commit_window(t *zzT) { zzH_C06_commit_height_window(t) }
